@@ -83,6 +83,16 @@ def c06Search (ids : List Nat) (sid : Nat) : String :=
   | some (i, _) => toString i
   | none => "-1"
 
+/-- `Roster.Get` of property C06 on a roster whose entries carry these `ID` fields: the position it hands back the
+entry of, `nil` outside the list (`c06_gen_Roster_Get_spec`) -/
+def c06Get (ids : List Nat) (idx : Int) : String :=
+  if idx < 0 ∨ (ids.length : Int) ≤ idx then "nil" else toString idx.toNat
+
+def int? (s : String) : Option Int :=
+  match s.toList with
+  | '-' :: r => if r.isEmpty then none else (String.ofList r).toNat?.map fun n => -(n : Int)
+  | _ => s.toNat?.map fun n => (n : Int)
+
 /-- seven observations `closed pipe cancel isEOF eofText netErr timeout` as 0/1; only vectors an error value can
 have (`io.EOF` is itself: text "EOF", no `net.Error`; a timeout needs a `net.Error`) -/
 def netErr? (s : String) : Option C09.NetErr :=
@@ -118,6 +128,10 @@ def step (toks : List String) : String :=
   | ["c06", "search", ids, sid] =>
     match (if ids = "-" then some [] else Util.natList ids), sid.toNat? with
     | some ids, some sid => c06Search ids sid
+    | _, _ => "bad-op"
+  | ["c06", "rosterget", ids, idx] =>
+    match (if ids = "-" then some [] else Util.natList ids), int? idx with
+    | some ids, some idx => c06Get ids idx
     | _, _ => "bad-op"
   | ["c09", "handleerror", bits] =>
     match netErr? bits with
